@@ -196,6 +196,33 @@ theorem psGet_psSet_self (l : List (String × Bool × Bool)) (k : String) (v : B
       rw [List.find?_eq_none]; intro x hx; simpa using h x hx
     rw [this]; simp
 
+theorem psGet_psSet_other (l : List (String × Bool × Bool)) (k y : String) (v : Bool × Bool) (hy : y ≠ k) :
+    psGet (psSet l k v) y = psGet l y := by
+  have hmap : ∀ l : List (String × Bool × Bool),
+      List.find? (fun e => decide (e.1 = y)) (l.map (fun e => if e.1 = k then (k, v) else e)) =
+        List.find? (fun e => decide (e.1 = y)) l := by
+    intro l
+    induction l with
+    | nil => rfl
+    | cons e es ih =>
+      simp only [List.map_cons, List.find?_cons]
+      by_cases he : e.1 = k
+      · have hey : e.1 ≠ y := fun h => hy (h ▸ he)
+        have hky : k ≠ y := fun h => hy h.symm
+        simp only [he, if_true, hky, decide_false]
+        exact ih
+      · simp only [he, if_false]
+        by_cases hey : e.1 = y
+        · simp [hey]
+        · simp only [hey, decide_false]; exact ih
+  unfold psGet psSet
+  split
+  · rw [hmap]
+  · rw [List.find?_append]
+    cases hf : List.find? (fun e => decide (e.1 = y)) l with
+    | some v => rfl
+    | none => simp [Ne.symm hy]
+
 theorem psGet_psDel_self (l : List (String × Bool × Bool)) (k : String) : psGet (psDel l k) k = none := by
   unfold psGet psDel
   have : List.find? (fun x => decide (x.1 = k)) (List.filter (fun x => decide (x.1 ≠ k)) l) = none := by
@@ -218,6 +245,13 @@ theorem on_from_enabled_contact (t : Topic) (x : String) (wantReply : Bool) (pon
   · cases ponl <;> simp
   · cases wantReply <;> simp
 
+/-- … and nothing else about the topic changes: only the entry of that contact -/
+theorem on_from_enabled_topic (t : Topic) (x : String) (wantReply : Bool) (ponl : Bool)
+    (hme : t.isMe = true) (hact : t.inactive = false) (hc : psGet t.perSubs x = some (ponl, true)) :
+    (procPresReqCore t x "on" "" wantReply).1 = { t with perSubs := psSet t.perSubs x (true, true) } := by
+  unfold procPresReqCore
+  simp [hact, hme, hc]
+
 /-- "offline" from an enabled contact: the table says offline; passed on only if the contact was known as online; never answered -/
 theorem off_from_enabled_contact (t : Topic) (x : String) (wantReply : Bool) (ponl : Bool)
     (hme : t.isMe = true) (hact : t.inactive = false) (hc : psGet t.perSubs x = some (ponl, true)) :
@@ -229,6 +263,12 @@ theorem off_from_enabled_contact (t : Topic) (x : String) (wantReply : Bool) (po
   · simp [psGet_psSet_self]
   · cases ponl <;> simp
   · simp
+
+theorem off_from_enabled_topic (t : Topic) (x : String) (wantReply : Bool) (ponl : Bool)
+    (hme : t.isMe = true) (hact : t.inactive = false) (hc : psGet t.perSubs x = some (ponl, true)) :
+    (procPresReqCore t x "off" "" wantReply).1 = { t with perSubs := psSet t.perSubs x (false, true) } := by
+  unfold procPresReqCore
+  simp [hact, hme, hc]
 
 /-- a contact whose notifications are not enabled (no presence permission on this side) stays offline in the table and nothing
 about it is passed on -/
